@@ -90,7 +90,6 @@ mod verif_l2_amend {
             DF::SRT(r) => r,
             _ => unreachable!(),
         };
-        check_clock(&new);
         assert!(new.last_df == old.last_df || Some(new.last_df) == r.df, "last DF recorded or kept");
         if r.df == Some(4) {
             match r.altitude {
@@ -130,6 +129,7 @@ mod verif_l2_amend {
         keep_surface(&old, &new);
         keep_status_version(&old, &new);
         keep_type_code(&old, &new);
+        check_clock(&new);  // last: natively (playback) the clock stand-in is inactive
         kani::cover!(r.df == Some(4) && r.altitude.is_some(), "DF4 with altitude");
         kani::cover!(true, "reach_end");
     }
@@ -146,7 +146,6 @@ mod verif_l2_amend {
         let dl = DF::MDS(r);
         let mut new = clone_plane(&old);
         new.update_from_downlink(&dl);
-        check_clock(&new);
         keep_rest(&old, &new);
         keep_altitude(&old, &new);
         keep_squawk(&old, &new);
@@ -162,6 +161,7 @@ mod verif_l2_amend {
         keep_surface(&old, &new);
         keep_status_version(&old, &new);
         keep_type_code(&old, &new);
+        check_clock(&new);  // last: natively (playback) the clock stand-in is inactive
         kani::cover!(true, "reach_end");
     }
 
@@ -193,7 +193,6 @@ mod verif_l2_amend {
         let old = any_plane(false);
         let mut new = clone_plane(&old);
         new.update_from_downlink(&dl);
-        check_clock(&new);
         keep_rest(&old, &new);
         keep_altitude(&old, &new);
         keep_squawk(&old, &new);
@@ -209,6 +208,7 @@ mod verif_l2_amend {
         keep_surface(&old, &new);
         keep_status_version(&old, &new);
         keep_type_code(&old, &new);
+        check_clock(&new);  // last: natively (playback) the clock stand-in is inactive
         kani::cover!(which % 3 == 0, "empty short record");
         kani::cover!(true, "reach_end");
     }
@@ -228,7 +228,6 @@ mod verif_l2_amend {
         let (tc, st) = r.message_type;
         let o = &old;
         let n = &new;
-        check_clock(n);
         assert!(n.last_df == o.last_df || Some(n.last_df) == r.df, "last DF recorded or kept");
         assert!(n.last_type_code == tc, "last type code recorded");
         assert!(n.capability.0 == o.capability.0 || n.capability.0 == r.capability, "DF17: CA capability kept or recorded");
@@ -329,6 +328,7 @@ mod verif_l2_amend {
             keep_cpr(o, n);
             assert!(unsafe { G_POS_CALLS } == 0, "no position update for a non-position type code");
         }
+        check_clock(n);  // last: natively (playback) the clock stand-in is inactive
         kani::cover!(true, "reach_end");
     }
 
